@@ -525,3 +525,71 @@ def r_complex_text_loads(ctx, repo):
 
 def _cls_words(c):
     return {'neg': 'negative', 'nzero': '-0.0', 'pzero': '0.0', 'pos': 'positive', 'pinf': 'inf', 'ninf': '-inf', 'nan': 'nan'}[c]
+
+
+# ------------------------------------------------------------------------------------- R-CANONICAL-NO-SIMPLE-KEY
+def r_canonical_no_simple_key(ctx, repo):
+    """canonical=True asks for the canonical form, in which every mapping entry is written `? key : value`.  Canonical
+    output is always in flow style, so the fact is decided on the emitter's flow-mapping key states: with self.canonical
+    true, the branch that emits the key as a simple key (expect_node(..., simple_key=True)) is unreachable - either the
+    state tests the option itself, or the predicate it relies on (check_simple_key) cannot return a true value under the
+    option."""
+    from .rules_emit import Scenario
+    rule = ctx.rule('R-CANONICAL-NO-SIMPLE-KEY', 'with canonical=True no flow-mapping key is written as a simple key: in every state that '
+                                                 'can start a key, the simple-key branch is unreachable under the option')
+    E = repo.cls('emitter.Emitter')
+    n_states = 0
+
+    def simple_key_call(x):
+        return isinstance(x, ast.Call) and isinstance(x.func, ast.Attribute) and x.func.attr == 'expect_node' and any(
+            k.arg == 'simple_key' and isinstance(k.value, ast.Constant) and k.value.value is True for k in x.keywords)
+
+    def predicate_false_under_canonical(name, depth=0):
+        """every return of self.<name>() reachable with self.canonical true returns the constant False (or None)."""
+        g = E.methods.get(name)
+        if g is None or depth > 2:
+            return False
+        S = Scenario(repo, g)
+        r = S.reach(table={'self.canonical': True})
+        for n in S.cfg.nodes:
+            if n in r and n.kind == 'return':
+                v = n.ast.value
+                if v is None or (isinstance(v, ast.Constant) and not v.value):
+                    continue
+                return False
+        if S.cfg.exit_fall in r:
+            return True         # falling off the end returns None
+        return True
+
+    for name, f in sorted(E.methods.items()):
+        calls = [x for x in walk_function(f.node) if simple_key_call(x)]
+        # only mapping keys in flow context: the state also writes the "?" indicator on its other branch or is named by the
+        # flow-mapping states; block mappings are never written in canonical mode (expect_node chooses the flow style)
+        if not calls or 'flow' not in name:
+            continue
+        n_states += 1
+        S = Scenario(repo, f)
+        cfg = S.cfg
+
+        def hook(e, f=f):
+            inner, pos = A.strip_not(e)
+            if isinstance(inner, ast.Call) and isinstance(inner.func, ast.Attribute) and isinstance(inner.func.value, ast.Name) \
+                    and f.params and inner.func.value.id == f.params[0] and not inner.args and not inner.keywords \
+                    and inner.func.attr in E.methods and inner.func.attr.startswith('check_') \
+                    and any(isinstance(x, ast.Return) and x.value is not None for x in walk_function(E.methods[inner.func.attr].node)):
+                if predicate_false_under_canonical(inner.func.attr):
+                    return False if pos else True      # the predicate is false under the option
+            return None
+        r = S.reach(table={'self.canonical': True}, hook=hook)
+        for c in calls:
+            nodes = cfg.nodes_of(A.enclosing_stmt(c))
+            if any(n in r for n in nodes):
+                rule.fail('%s|simple-key-under-canonical' % f.qualname, f.module.rel, c.lineno, f.qualname, A.anon_text(c, f.node, 60),
+                          'with canonical=True this state can still write the key as a simple key (`key: value`): the canonical form '
+                          'requires the explicit `? key : value` entry for every key, whatever the key is (alias, empty collection, '
+                          'scalar)')
+            else:
+                rule.ok(f.loc(c), 'simple-key branch unreachable when canonical')
+    if n_states < 2:
+        raise AnalysisError('R-CANONICAL-NO-SIMPLE-KEY: only %d flow-mapping key states found' % n_states)
+    return rule
